@@ -1,8 +1,13 @@
 import Faithful.Lib.LedgerProofs
 import Faithful.Lib.LedgerLimits
+import Faithful.Lib.ParsersCbor
 /-! Property C11 — the hand-written IPLD node decoders agree with the schema-driven reference decoder.
 
-All statements are about the definitions the driver executes (`Ledger.Fast.decode`, `Ledger.Ref.decode`,
+`Ledger.Fast.decode` is the model of `cbor.go` as pinned (unchecked assertions = `panic` outcomes); the tree now carries
+fix 8c63bd7 (those sites return errors), whose model is `Ledger.FastFixed.decode` — the one the driver executes.  The
+theorems are proved for the pinned model and transferred to the current one (`current_*`) through the refinement
+`FastFixed.ref_decode` (same outcome wherever the pinned model does not panic).
+Statements are about the definitions the driver executes (`Ledger.FastFixed.decode`, `Ledger.Ref.decode`,
 `Ledger.Ref.encode`, `Ledger.obs` of Faithful/Lib/Ledger.lean), for ALL typed values of the seven kinds that satisfy the
 schema's own constraints (`Node.WF`: the kind field carries the kind, Go ints are int64, links are CIDs) — no bound on
 list lengths, byte-string lengths or integer magnitudes.  bytes ⇄ CBOR tree is third-party code on both paths and is
@@ -48,6 +53,22 @@ theorem fast_eq_classic (n : Node) (wf : n.WF) :
     ∃ f c, Fast.decode n.kind (Ref.encode n) = .ok f ∧ Ref.decode n.kind (Ref.encode n) = .ok c ∧ obs f = obs c := by
   obtain ⟨⟨f, hf, hof⟩, ⟨c, hc, hoc⟩⟩ := fast_agrees n wf
   exact ⟨f, c, hf, hc, hof.trans hoc.symm⟩
+
+/-- **agreement for the current tree** (decoders with fix 8c63bd7, the model the driver runs): same statement -/
+theorem current_fast_agrees (n : Node) (wf : n.WF) :
+    (∃ n', FastFixed.decode n.kind (Ref.encode n) = .ok n' ∧ obs n' = obs n) ∧
+    (∃ n'', Ref.decode n.kind (Ref.encode n) = .ok n'' ∧ obs n'' = obs n) := by
+  obtain ⟨⟨n', hn, ho⟩, hr⟩ := fast_agrees n wf
+  exact ⟨⟨n', FastFixed.decode_ok_of_pinned_ok hn, ho⟩, hr⟩
+
+theorem current_fast_agrees_limited (n : Node) (wf : n.WF) (h : n.maxList ≤ Fast.maxArrayElements) :
+    ∃ n', FastFixed.decodeLimited n.kind (Ref.encode n) = .ok n' ∧ obs n' = obs n := by
+  obtain ⟨n', hn, ho⟩ := fast_agrees_limited n wf h
+  exact ⟨n', FastFixed.decodeLimited_ok_of_pinned_ok hn, ho⟩
+
+/-- the current hand-written decoders never panic, on any CBOR tree of any kind (shared with property C12) -/
+theorem current_never_panics (k : Kind) (v : Cbor.Val) : ∀ w, FastFixed.decode k v ≠ Ledger.Outcome.panic w :=
+  FastFixed.np_decode k v
 
 /-! ### a node of one kind is never accepted as another kind -/
 
@@ -97,6 +118,14 @@ theorem kind_exclusive (n : Node) (wf : n.WF) (k : Kind) (hk : k ≠ n.kind) :
   | epoch => obtain ⟨e, he⟩ := readKind_mismatch _ 4 (kindNum_I64 _) hne t; exact ⟨e, by simp [Fast.decode, Fast.unmarshalEpoch, Fast.topArray, he]⟩
   | rewards => obtain ⟨e, he⟩ := readKind_mismatch _ 5 (kindNum_I64 _) hne t; exact ⟨e, by simp [Fast.decode, Fast.unmarshalRewards, Fast.topArray, he]⟩
   | dataFrame => obtain ⟨e, he⟩ := readKind_mismatch _ 6 (kindNum_I64 _) hne t; exact ⟨e, by simp [Fast.decode, Fast.unmarshalDataFrame, Fast.dataFrameFromArray, Fast.topArray, he]⟩
+
+/-- **kind exclusivity for the current tree** -/
+theorem current_kind_exclusive (n : Node) (wf : n.WF) (k : Kind) (hk : k ≠ n.kind) :
+    ∃ e, FastFixed.decode k (Ref.encode n) = .err e := by
+  obtain ⟨e, he⟩ := kind_exclusive n wf k hk
+  rcases FastFixed.ref_decode k (Ref.encode n) with h | ⟨w, h⟩
+  · exact ⟨e, by rw [← h, he]⟩
+  · rw [he] at h; cases h
 
 /-! ### integer sign handling through the casts of cbor.go -/
 
